@@ -57,10 +57,11 @@ ASSUMPTIONS = [
     "description only waits for the current condition; they are not data references (label "
     "edges:stale-condition-edges-of-writer-not-restored counts the cases)",
     "packages that the repository rejects at creation are discarded (counted under label rejected:*); typed options "
-    "given as %(var)s are generated on components only (blueprints / overrides with them are rejected at creation, "
-    "a C04 matter); ':copy' / ':link' references are declared but not used on the command line (the repository "
+    "given as %(var)s are generated on components and (walltime) in blueprints, not in platform overrides; ':copy' / ':link' references are declared but not used on the command line (the repository "
     "only allows :ref / :output there); no ':copy' from a producer of the same stage",
 ]
+# (a fifth of the packages without a loop are a single FlowIR file whose folders an explicit manifest copies / links
+#  into the instance: the reloaded experiment only has the directory listing to tell folders from components)
 TIERS = {"quick": {"shards": 8, "budget": 150}, "thorough": {"shards": 16, "budget": 1500}}
 
 PATCH_KEYS = {"args": "#command.arguments", "var": G.POOL[0], "newvar": "pvar",
@@ -279,6 +280,22 @@ def _create(case, loc):
             yaml.safe_dump(G.int_stage_keys(uv), f)
         vfiles.append(p)
     plat = case["platform"]
+    if case.get("manifest"):
+        # the workflow is a single FlowIR file; its folders live elsewhere and an explicit manifest copies or links
+        # them into the instance
+        m = case["manifest"]
+        ext = os.path.join(loc, "external")
+        files["%s/table.csv" % m["folder"]] = "a,b\n1,2\n"
+        pkg.populate_files(ext, files)
+        manifest = {}
+        for top in sorted({p.split("/")[0] for p in files}):
+            method = m["method"] if top == m["folder"] else "copy"
+            manifest[top] = os.path.join(ext, top) + (":" + method if method else "")
+        wf_path = os.path.join(loc, "workflow.yaml")
+        with open(wf_path, "w") as f:
+            yaml.safe_dump(F, f, sort_keys=False)
+        return pkg.experiment_from_package_path(wf_path, loc, vfiles or None, None if plat == "default" else plat,
+                                                manifest=manifest)
     return pkg.experiment_from_flowir(F, loc, extra_files=files, variable_files=vfiles or None,
                                       platform=None if plat == "default" else plat)
 
